@@ -94,6 +94,8 @@ func Load(dir string, overlay map[string][]byte, patterns []string) (*Program, e
 	addIntrinsics(P)
 	addBadgerModel(P)
 	addSSZModel(P)
+	addGobModel(P)
+	addStringModels(P)
 	return P, nil
 }
 
